@@ -206,7 +206,7 @@ where
                             }
                         }
 
-                        param = param.chars().skip(1).take(param.len() - 1).collect();
+                        param = param.chars().skip(1).collect();
 
                         if "01".contains(&code) {
                             listener.lock().unwrap().set_icon_name(&param);
@@ -330,7 +330,7 @@ where
                             }
                         }
 
-                        param = param.chars().skip(1).take(param.len() - 1).collect();
+                        param = param.chars().skip(1).collect();
 
                         if "01".contains(&code) {
                             listener.lock().unwrap().set_icon_name(&param);
